@@ -1513,6 +1513,6 @@ def rule_eq_dunder(run: Run, prog: Program) -> int:
 
 
 def check_crossratio(run: Run, prog: Program) -> None:
-    fn = prog.func("crossratio")
-    n = add_returns(run, prog, lambda f: f is fn, extra_names={"crossratio"})
+    fn = prog.body_of(prog.func("crossratio"))
+    n = add_returns(run, prog, lambda f: f is fn, extra_names={"crossratio", fn.name})
     run.floor("return paths of crossratio", n, 3)
